@@ -219,6 +219,18 @@ def r2(run, ctx):
                 run.fail('R2', e, x, '%s passes request data to %s' % (e.qualname, dotted(x.func)))
 
 
+def _given(name):
+    """assume-function: the request carries `name` (truthy, or `is not None`)"""
+    from sa.idioms import none_test
+
+    def assume(x):
+        if norm_text(x) == name:
+            return True
+        r = none_test(x, name)
+        return None if r is None else (not r)
+    return assume
+
+
 def r3(run, ctx):
     run.rule('R3', 'addressed subset')
     e = ctx.fn('circus.commands.kill:Kill.execute')
@@ -238,7 +250,7 @@ def r3(run, ctx):
             okf = norm_text(g.iter) == 'processes' and len(g.ifs) == 1 and \
                 norm_text(g.ifs[0]) in ('p.pid == pid', 'pid == p.pid') and \
                 norm_text(lc.elt) == norm_text(g.target) and \
-                guarded(cfg, n, lambda x: True if norm_text(x) == 'pid' else None, True)
+                guarded(cfg, n, _given('pid'), True)
         run.check('R3', okf, 'with a pid only the active process with exactly that pid is kept',
                   e, filt[0].ast if filt else e.node,
                   'the pid filter of kill is missing or not an equality on p.pid: other workers '
@@ -303,7 +315,15 @@ def r3(run, ctx):
         for label, (target, asm) in sel.items():
             def assume(x, asm=asm):
                 t = norm_text(x)
-                return asm.get(t)
+                if t in asm:
+                    return asm[t]
+                # `name is [not] None`: a property the request does not carry is None
+                from sa.idioms import none_test
+                for nm, v in asm.items():
+                    r = none_test(x, nm)
+                    if r is not None:
+                        return (not r) if v else r
+                return None
             r = reach_under(cfg, cfg.entry, assume, labels_excluded=('exc',))
             senders = {k: [n for n in ctx.nodes_calling(se, [k])] for k in
                        (W + 'send_signal', W + 'send_signal_child', W + 'send_signal_children')}
@@ -452,7 +472,7 @@ def r4(run, ctx):
     plain = [(r, a) for r in rets for a in rd.expand(r, r.ast.value) if a.text() == 'int(signum)']
     matches = [n for n, fn, pat in pats]
     run.check('R4', bool(plain) and all(
-        cfg.dominates([(a.used[0] if a.used else r)], m) for r, a in plain for m in matches),
+        any(cfg.dominates([(a.used[0] if a.used else r)], m) for r, a in plain) for m in matches),
         'numbers and numeric strings are taken as they are', ts, ts.node)
     keys = set()
     for kind, x in look:
